@@ -239,7 +239,7 @@ static int ptr_mapped(const void* p, size_t n) {
 }
 
 /* ------------------------------------------------------------------ state */
-#define MAXCOLS 64
+#define MAXCOLS 10240       /* (the writer's own limit is 9999 columns: schema elements <= 10000) */
 typedef struct { char* name; int type; int rep; int tlen; int has_lt; carquet_logical_type_t lt; } coldef_t;
 
 typedef struct {
